@@ -182,6 +182,12 @@ def gen_scenarios(rng, tier):
     sc.append({"name": "importcache-err", "proto": "PImportCache", "hits": True, "env": {},
                "cases": [{"kind": "importcache", "mode": "err", "n": 4, "rounds": 3, "timeout_ms": 5000}]})
 
+    # S10 the stdin cache behind //os.stdin: one contended first use per process (no public reset), the process's
+    # descriptor 0 re-pointed at a pipe fed in small chunks; serial result = the whole stream for everybody
+    for i in range(2 if not thorough else 4):
+        sc.append({"name": "stdin-cache-%d" % i, "proto": "PStdinCache", "hits": False, "env": {},
+                   "cases": [{"kind": "stdin", "n": rng.choice([4, 8, 12]), "size": rng.choice([16384, 32768]), "chunk": rng.choice([64, 128, 256])}]})
+
     # S9 deprecator (sampled only)
     sc.append({"name": "deprecator", "proto": None, "hits": False, "env": {}, "cases": [{"kind": "deprecate", "n": 8, "rounds": 10 if not thorough else 40}]})
     for s in sc:
@@ -266,7 +272,7 @@ def main(tier, seed, replay=None):
                 more = gen_scenarios(random.Random(extra), "quick")
                 for s in more:
                     s["name"] += "-s%d" % extra
-                scenarios += [s for s in more if not s["name"].startswith("std-lazies")]
+                scenarios += [s for s in more if not s["name"].startswith(("std-lazies", "stdin-cache"))]
     with concurrent.futures.ThreadPoolExecutor(max_workers=12) as ex:
         results = list(ex.map(lambda p: run_scenario(vrace, p[1], p[0]), enumerate(scenarios)))
 
